@@ -91,8 +91,11 @@ Record stream := mkStream {
 }.
 Record valuation := mkVal {
   v_str : N -> stream;               (* one stream per sub-query name *)
-  v_nxt : N -> N -> option N         (* payload oracle: element, position -> position behind its next match *)
+  v_nxt : N -> N -> option N;        (* payload oracle: element, position -> position behind its next match *)
+  v_start : N                        (* payload position at which matching starts (0 for a whole stream) *)
 }.
+(* the same stream(s), matched from position p *)
+Definition at_pos (v : valuation) (p : N) : valuation := mkVal (v_str v) (v_nxt v) p.
 
 Definition is_some {A} (o : option A) : bool := match o with Some _ => true | None => false end.
 
@@ -152,7 +155,7 @@ Fixpoint eval_chain (nxt : N -> N -> option N) (els : list N) (inv : bool) (p : 
       | _ => match nxt e p with Some q => eval_chain nxt r inv q | None => false end
       end
   end.
-Definition eval_data (v : valuation) (c : datac) : bool := eval_chain (v_nxt v) (d_el c) (d_inv c) 0%N.
+Definition eval_data (v : valuation) (c : datac) : bool := eval_chain (v_nxt v) (d_el c) (d_inv c) (v_start v).
 
 Definition eval_cond (v : valuation) (c : cond) : bool :=
   match c with
@@ -862,7 +865,7 @@ Definition holds (v : valuation) (e : expr) (p : N) : bool :=
   existsb (fun j => is_some (run v e j p)) (seqn (readings e)).
 
 Definition sem (v : valuation) (e : expr) : bool :=
-  match strip e with None => true | Some e' => holds v e' 0%N end.
+  match strip e with None => true | Some e' => holds v e' (v_start v) end.
 
 (* The reading of DESIGN.md (NOT as look-ahead in a continuation semantics), kept for comparison. *)
 Fixpoint semk (v : valuation) (e : expr) (p : N) (k : N -> bool) : bool :=
@@ -876,7 +879,7 @@ Fixpoint semk (v : valuation) (e : expr) (p : N) (k : N -> bool) : bool :=
   | EThen a b => semk v a p (fun q => semk v b q k)
   end.
 Definition semL (v : valuation) (e : expr) : bool :=
-  match strip e with None => true | Some e' => semk v e' 0%N (fun _ => true) end.
+  match strip e with None => true | Some e' => semk v e' (v_start v) (fun _ => true) end.
 
 (* ------------------------------------------------------------------ well-formedness *)
 
